@@ -133,15 +133,98 @@ def recreated_class_cases(ctx, only=None):
                          "%s: one call evaluated %r, expected %r" % (label, got, want))
 
 
+def shared_decorator_order(ctx, only=None):
+    """Decorator OBJECTS shared by the base's member and the override (`positive = icontract.require(...)` applied to
+    both, anywhere in the stacks): the walk is still the one of the statement - the inherited group first, each group from the
+    decorator nearest the function outwards, a group is left at its first falsy condition, the walk ends at the first group
+    that holds, and the error is that of the first falsy condition of the last group tried. Enumerated: base stack (1..2 of
+    3 shared objects, ordered) x override stack (1..2, ordered) x all 8 truth assignments; the trace of evaluations and the
+    description in the error are compared."""
+    import itertools
+    import icontract
+
+    T = [True, True, True]
+    log = []
+
+    def mk(i):
+        ns = {"T": T, "log": log}
+        exec("def cond_%d(x):\n    log.append(%d)\n    return T[%d]" % (i, i, i), ns)
+        return ns["cond_%d" % i]
+
+    decos = [icontract.require(mk(i), "shared-%d" % i) for i in range(3)]
+    stacks = [p for r in (1, 2) for p in itertools.permutations(range(3), r)]
+    for bstack, sstack in itertools.product(stacks, stacks):
+        key = [list(bstack), list(sstack)]
+        if only is not None and only != key:
+            continue
+
+        def bm(self, x):
+            return x
+
+        def sm(self, x):
+            log.append("body")
+            return x
+
+        for i in bstack:  # applied bottom-up: the first one is nearest the function
+            bm = decos[i](bm)
+        for i in sstack:
+            sm = decos[i](sm)
+        Base = type(icontract.DBC)("Base", (icontract.DBC,), {"m": bm})
+        Sub = type(icontract.DBC)("Sub", (Base,), {"m": sm})
+        bad = []
+        for truth in itertools.product((True, False), repeat=3):
+            T[:] = truth
+            want_log, want = [], None
+            groups = [bstack] if list(bstack) == list(sstack) else [bstack, sstack]  # the very same group is listed once
+            for group in groups:
+                falsy = None
+                for i in group:
+                    want_log.append(i)
+                    if not truth[i]:
+                        falsy = i
+                        break
+                if falsy is None:
+                    want = "accepted"
+                    break
+            if want is None:
+                want = "shared-%d" % falsy
+            else:
+                want_log.append("body")
+            del log[:]
+            try:
+                Sub().m(1)
+                got = "accepted"
+            except icontract.ViolationError as e:
+                got = next((d for d in ("shared-0", "shared-1", "shared-2") if d in str(e)), "?")
+            except BaseException as e:  # noqa
+                got = "%s: %s" % (type(e).__name__, e)
+            if got != want or log != want_log:
+                bad.append((truth, want, want_log, got, list(log)))
+        T[:] = [True] * 3
+        ctx.case(["shared-decorator-order"] + key, bool(set(bstack) & set(sstack)),
+                 sample={"directed": "shared require objects: base stack %r, override stack %r (nearest the function first)" % (bstack, sstack)})
+        ctx.count("directed:shared-decorator-order")
+        if bad:
+            ctx.fail("shared-decorator-order|%s" % ("overlap" if set(bstack) & set(sstack) else "disjoint"), {"shared_decorator_order": key},
+                     "require objects shared among functions, base stack %r, override stack %r: (truth, expected error/outcome, expected "
+                     "evaluations, got, evaluated) %r" % (bstack, sstack, bad[:3]))
+
+
 def run(ctx, tier, seed, shard, nshards):
     n = 400 if tier == "quick" else 2000
     D.explore(ctx, seed, n, strategy(), JUDGE, limit_all=6 if tier == "quick" else 9, n_sample=24,
               nontrivial=nontrivial, exclude=exclude)
     if shard == 0:
         recreated_class_cases(ctx)
+        shared_decorator_order(ctx)
 
 
 def replay(ctx, case):
+    if case.get("shared_decorator_order"):
+        before = ctx.evaluations
+        shared_decorator_order(ctx, only=case["shared_decorator_order"])
+        ctx.evaluations = before + 1
+        return
     if case.get("recreated_class"):
         before = ctx.evaluations
         recreated_class_cases(ctx, only=case["recreated_class"])
